@@ -117,6 +117,22 @@ def handle (op : String) (j : Json) : Option Json :=
         let want := Spec.Online.stateAt applyAct cs.pre cs.plan cs.plan.length cs.db
         some (obj [("holds", Json.bool (fin == want || (cs.plan.isEmpty && fin == cs.db)))])
     | none => some (errJ "bad-op")
+  | "online.configure" =>
+    -- calls: [[tddl|null, perMig], ...] -> the flags of the context each call creates
+    let calls : List ConfigureArgs := (getArr j "calls").map (fun c =>
+      match c with
+      | .arr a =>
+        { tddl := (match a.toList with | Json.bool b :: _ => some b | _ => none),
+          perMig := (match a.toList with | _ :: Json.bool b :: _ => b | _ => false) }
+      | _ => { tddl := none, perMig := false })
+    let dflt := getBoolD j "dialectDefault"
+    let rec go (o : CtxOpts) : List ConfigureArgs → List Json
+      | [] => []
+      | a :: r =>
+        let o' := configureCall o a
+        let e := effective dflt o'
+        Json.arr #[Json.bool e.1, Json.bool e.2] :: go o' r
+    some (obj [("effective", Json.arr (go {} calls).toArray)])
   | "online.boundaries" =>
     -- rows at every migration boundary (used by the harness to check the hypotheses of
     -- never_names_failed on the generated plans)
